@@ -181,3 +181,21 @@ Proof.
   vm_compute. repeat split.
 Qed.
 Print Assumptions C02_ex_signed.
+
+(* ---- tie to the source: the digit primitives REGENERATED from /repo/src/digit.rs on every run
+   (Generated/DigitGen.v, tools/rs2v_digit.py) are the model's digit primitives, for every digit width ---- *)
+From Bnum.Model Require Import DigitPrims Digit.
+From Bnum.Generated Require Import DigitGen.
+From Bnum.Proofs Require Import DigitTie.
+Theorem C02_digit_rs_matches_model w : 0 < w ->
+  (forall low high, digit_ok w low -> digit_ok w high -> DigitGen.to_double_digit w low high = to_double_digit w low high) /\
+  (forall a b c, DigitGen.carrying_add w a b c = carrying_add w a b c) /\
+  (forall a b c, DigitGen.borrowing_sub w a b c = borrowing_sub w a b c) /\
+  (forall a b c, DigitGen.carrying_add_signed w a b c = carrying_add_signed w a b c) /\
+  (forall a b c, DigitGen.borrowing_sub_signed w a b c = borrowing_sub_signed w a b c) /\
+  (forall a b, digit_ok w a -> digit_ok w b -> DigitGen.widening_mul w a b = widening_mul w a b) /\
+  (forall a b c d, digit_ok w a -> digit_ok w b -> digit_ok w c -> digit_ok w d ->
+                   DigitGen.carrying_mul w a b c d = carrying_mul w a b c d) /\
+  (forall low high rhs, digit_ok w low -> digit_ok w high -> DigitGen.div_rem_wide w low high rhs = div_rem_wide w low high rhs).
+Proof. exact (digit_rs_matches_model w). Qed.
+Print Assumptions C02_digit_rs_matches_model.
